@@ -1218,6 +1218,10 @@ func (g *getopts) next(optstr string, args []string) (opt rune, optarg string, d
 	}
 
 	opts := arg[1:]
+	if g.runeidx >= len(opts) {
+		// The argument vector changed since the previous call; start this word over.
+		g.runeidx = 0
+	}
 	opt = opts[g.runeidx]
 
 	i := strings.IndexRune(optstr, opt)
